@@ -485,16 +485,44 @@ function!(Xor(a: Boolean, b: Boolean)=>Boolean, ctx=ctx, arg_opts=raw,{
     Ok(ret.into())
 });
 
+// Comparison is defined on two integers, two strings or two booleans. Anything else is rejected by the checker
+// when the static types are known, and is an evaluation error (not a panic) when they are not (`Any`).
+fn compare_signature(ctx: ScriptContextRef, args: &[Value]) -> Result<Type, Error> {
+    if args.len() != 2 {
+        bail!("comparison requires 2 arguments, {} provided", args.len())
+    }
+    let a = args[0].real_type_of(ctx.clone())?;
+    let b = args[1].real_type_of(ctx)?;
+    if a != b {
+        bail!("can not compare {} with {}", a, b)
+    }
+    if !comparable(&a) || !comparable(&b) {
+        bail!("comparison is not defined on {} and {}", a, b)
+    }
+    Ok(Type::Boolean)
+}
+
+fn comparable(t: &Type) -> bool {
+    matches!(t, Type::Integer | Type::String | Type::Boolean | Type::Any)
+}
+
 macro_rules! compare_op{
     ($name:ident, $op:tt) =>{
-        function!($name(a: Any, b: Any)=>Boolean, {
-            match (a,b) {
-                (Value::Integer(a),Value::Integer(b)) => Ok((a $op b).into()),
-                (Value::String(a),Value::String(b)) => Ok((a $op b).into()),
-                (Value::Boolean(a),Value::Boolean(b)) => Ok((a $op b).into()),
-                _ => panic!("not implemented")
+        function_head!($name(a: Any, b: Any) => Boolean);
+        impl Callable for $name {
+            fn signature(&self, ctx: ScriptContextRef, args: &[Value]) -> Result<Type, Error> {
+                compare_signature(ctx, args)
             }
-        });
+            fn call(&self, ctx: ScriptContextRef, args: &[Value]) -> Result<Value, Error> {
+                args!(args, ctx=ctx, a, b);
+                match (a,b) {
+                    (Value::Integer(a),Value::Integer(b)) => Ok((a $op b).into()),
+                    (Value::String(a),Value::String(b)) => Ok((a $op b).into()),
+                    (Value::Boolean(a),Value::Boolean(b)) => Ok((a $op b).into()),
+                    (a, b) => bail!("can not compare {} with {}", a, b),
+                }
+            }
+        }
     }
 }
 
